@@ -420,7 +420,7 @@ class RBFInterpolator(NNBase):
         normalized_pts = (prediction_points - self._tpm) / self._tpr
         # Setup prediction points and find their radial neighbors
         if self._pt_cache is not None and \
-                np.allclose(self._pt_cache[0], normalized_pts):
+                np.array_equal(self._pt_cache[0], normalized_pts):
             pdist, ploc = self._pt_cache[1:]
         else:
             pdist, ploc = self._KData.query(normalized_pts, self.N)
